@@ -593,14 +593,23 @@ package anytype
 //@ instantiate int-extremum(IntMin, MaxInt, <, <=, min)
 //@ instantiate int-extremum(IntMax, MinInt, >, >=, max)
 
-//@ func NewListFrom trusted [C12 C13 C17]
+//@ func NewListFrom [C12 C13 C17]
 //@   requires okArg(slice)
 //@   assigns  nothing
-//@   panics_iff !supp(slice)
+//@   panics_iff !isVSl(slice) || !supp(slice)
 //@   plet r := list(vlref(result))
 //@   ensures  new: isVList(result) && fresh(r) && plain(r) && invL(r) && r.ptr == result && fresh(arr(r.val))
 //@   ensures  len: len(r.val) == sll(slice)
-//@   ensures  elems: forall k int :: 0 <= k && k < sll(slice) ==> wrapsS(r.val[k], rawAt(slice, k))
+//@   ensures  elems: forall k int :: 0 <= k && k < sll(slice) ==> wrapsS(r.val[k], natElem(slice, k))
+//@   loop 1,2,3,4,5,6,7
+//@     publish
+//@     assigns list(list(vlref(deref(ego))))
+//@     let r := list(vlref(deref(ego)))
+//@     invariant range: 0 <= idx && idx <= sll(slice) && isVSl(slice) && slo(slice) == 0
+//@     invariant hdr: isVList(deref(ego)) && fresh(r) && plain(r) && invL(r) && r.ptr == deref(ego) && fresh(arr(r.val)) && len(r.val) == idx
+//@     invariant elems: forall k int :: 0 <= k && k < idx ==> wrapsS(r.val[k], natElem(slice, k))
+//@     invariant none-bad: forall k int :: {natElem(slice, k)} 0 <= k && k < idx ==> supp(natElem(slice, k))
+//@     decreases sll(slice) - idx
 
 // Sort (C17). Domain of the property: non-empty list, homogeneous strings / ints / non-NaN floats.
 //@ template sorted-kind(TAG, TEST, PAY, LE)
@@ -1062,12 +1071,25 @@ package anytype
 //@   ensures  keys: forall k str :: has(r.val, k) == old(has(ego.val, k))
 //@   ensures  vals: forall k str :: old(has(ego.val, k)) ==> copyF(mark(), old(ego.val[k]), r.val[k])
 
-//@ func NewObjectFrom trusted [C12 C13]
+//@ func NewObjectFrom [C12 C13]
 //@   requires okArg(dict)
 //@   assigns  nothing
-//@   panics_iff !supp(dict)
+//@   panics_iff !isVMp(dict) || !supp(dict)
 //@   plet r := obj(voref(result))
 //@   ensures  new: isVObj(result) && fresh(r) && plain(r) && invO(r) && r.ptr == result && fresh(mapid(r.val))
+//@   ensures  keys: forall k str :: {has(r.val, k)} has(r.val, k) == domAt(dict, k)
+//@   ensures  vals: forall k str :: {r.val[k]} has(r.val, k) ==> wrapsS(r.val[k], natVal(dict, k))
+//@   loop 1,2,3,4,5,6,7
+//@     publish
+//@     assigns obj(obj(voref(deref(ego))))
+//@     let r := obj(voref(deref(ego)))
+//@     elet m0 := mapid(obj(voref(deref(ego))).val)
+//@     invariant range: 0 <= idx && idx <= ordn && isVMp(dict)
+//@     invariant hdr: isVObj(deref(ego)) && fresh(r) && plain(r) && invO(r) && r.ptr == deref(ego) && mapid(r.val) == m0 && fresh(m0)
+//@     invariant keys: forall k str :: {has(r.val, k)} has(r.val, k) == (domAt(dict, k) && ordpos[k] < idx)
+//@     invariant vals: forall k str :: {r.val[k]} has(r.val, k) ==> wrapsS(r.val[k], natVal(dict, k))
+//@     invariant none-bad: forall k str :: {ordpos[k]} domAt(dict, k) && ordpos[k] < idx ==> supp(natVal(dict, k))
+//@     decreases ordn - idx
 
 // ---------------------------------------------------------------------------
 // Parser (C04, C20)
